@@ -58,16 +58,34 @@ const (
 	leafCtxS
 	leafCtx
 	leafResource
+	leafNegLong
+	leafMinLong
+	leafSmallLong
 	leafCount
 )
 
-var genLeafNames = []string{"long", "bool", "string", "overflow", "typeerr", "context.k", "context.b", "entity", "absent-entity", "set", "record", "principal", "context.r", "decimal", "context.s", "context", "resource"}
+var genLeafNames = []string{"long", "bool", "string", "overflow", "typeerr", "context.k", "context.b", "entity", "absent-entity", "set", "record", "principal", "context.r", "decimal", "context.s", "context", "resource", "-5", "minint64", "small-long"}
+
+// genDigitPayloads restricts generated Long payloads to one decimal digit (used by
+// the text round-trip harnesses, where printing a full-range symbolic number
+// forks on its digit count and makes re-parsing a 19-digit arithmetic problem).
+var genDigitPayloads bool
+
+func VGenDigitPayloads(on bool) { genDigitPayloads = on }
+
+func genInt64(label string) int64 {
+	v := vrt.Int64(label)
+	if genDigitPayloads {
+		vrt.Assume(vrt.And(v >= 0, v <= 9))
+	}
+	return v
+}
 
 func genLeaf(label string, classes []int) (ast.Node, int) {
 	k := classes[vrt.Choice(label+".leaf", len(classes))]
 	switch k {
 	case leafLong:
-		return ast.Long(vrt.Int64(label + ".long")), k
+		return ast.Long(genInt64(label + ".long")), k
 	case leafBool:
 		return ast.Boolean(vrt.Bool(label + ".bool")), k
 	case leafString:
@@ -85,9 +103,9 @@ func genLeaf(label string, classes []int) (ast.Node, int) {
 	case leafAbsent:
 		return ast.Value(genX), k
 	case leafSet:
-		return ast.Set(ast.Long(vrt.Int64(label+".set0")), ast.Long(1)), k
+		return ast.Set(ast.Long(genInt64(label+".set0")), ast.Long(1)), k
 	case leafRecord:
-		return ast.Record(ast.Pairs{{Key: "a", Value: ast.Long(vrt.Int64(label + ".rec.a"))}}), k
+		return ast.Record(ast.Pairs{{Key: "a", Value: ast.Long(genInt64(label + ".rec.a"))}}), k
 	case leafPrincipal:
 		return ast.Principal(), k
 	case leafCtxRec:
@@ -100,6 +118,14 @@ func genLeaf(label string, classes []int) (ast.Node, int) {
 		return ast.Context(), k
 	case leafResource:
 		return ast.Resource(), k
+	case leafNegLong:
+		return ast.Long(-5), k
+	case leafMinLong:
+		return ast.Long(int64(-9223372036854775808)), k
+	case leafSmallLong:
+		v := vrt.Int64(label + ".small")
+		vrt.Assume(vrt.And(v >= 0, v <= 9)) // one digit: printing does not fork
+		return ast.Long(v), k
 	}
 	panic("leaf")
 }
@@ -225,3 +251,36 @@ func sameOutcome(v1 types.Value, e1 error, v2 types.Value, e2 error) bool {
 	}
 	return v1.Equal(v2)
 }
+
+// ---- exported views for harnesses in other packages (root, parser) ----
+
+type VGenEnv = genEnv
+
+func VGenMkEnv() genEnv                                   { return genMkEnv() }
+func (g genEnv) Env() Env                                 { return g.env }
+func VGenLeaf(label string, classes []int) (ast.Node, int) { return genLeaf(label, classes) }
+func VGenBinary(op int, l, r ast.Node) ast.Node           { return genBinary(op, l, r) }
+func VGenUnary(op int, x ast.Node) ast.Node               { return genUnary(op, x) }
+func VSameOutcome(v1 types.Value, e1 error, v2 types.Value, e2 error) bool {
+	return sameOutcome(v1, e1, v2, e2)
+}
+
+const (
+	VOpBinaryCount = opBinaryCount
+	VUnaryCount    = uUnaryCount
+	VLeafLong      = leafLong
+	VLeafBool      = leafBool
+	VLeafString    = leafString
+	VLeafOverflow  = leafOverflow
+	VLeafTypeErr   = leafTypeErr
+	VLeafCtxK      = leafCtxK
+	VLeafCtxB      = leafCtxB
+	VLeafEntity    = leafEntity
+	VLeafSet       = leafSet
+	VLeafRecord    = leafRecord
+	VLeafPrincipal = leafPrincipal
+	VLeafDecimal   = leafDecimal
+	VLeafNegLong   = leafNegLong
+	VLeafMinLong   = leafMinLong
+	VLeafSmallLong = leafSmallLong
+)
